@@ -364,7 +364,7 @@ Proof.
       * destruct l; try discriminate H. inversion H; subst. cbn. destruct p, k; cbn in En; try discriminate En; inversion En; subst; discriminate.
       * inversion H; subst. cbn. destruct p, k; cbn in En; try discriminate En; inversion En; subst; discriminate.
       * inversion H; subst. cbn. destruct p, k; cbn in En; try discriminate En; inversion En; subst; discriminate.
-      * inversion H; subst. cbn. discriminate.
+      * inversion H; subst. cbn. destruct p'; discriminate.
       * destruct k; [intros _ Hk; discriminate Hk|]. destruct fl; inversion H; subst; cbn; destruct p'; discriminate.
     + destruct isd; [|discriminate H]. inversion H; subst. cbn.
       (* a returning shutdown() is in phase Ready *)
@@ -427,11 +427,13 @@ Proof.
   - unfold main_step in H; proj H; destruct m.
     + destruct td as [|o r]; [discriminate H|].
       destruct (next_phase k p o) as [p'|]; [|discriminate H].
-      destruct o as [| |[|]| |]; cbn [map list_sum opcost].
+      assert (Hsum : list_sum (map opcost (o :: r)) = opcost o + list_sum (map opcost r)) by reflexivity.
+      rewrite Hsum; clear Hsum.
+      destruct o as [| |[|]| |]; cbn [opcost].
       * inversion H; subst; cbn [mcost lcost todo mpc_ loop idle in_flight]. lia.
       * destruct l; try discriminate H. inversion H; subst; cbn [mcost lcost todo mpc_ loop idle in_flight]. lia.
       * inversion H; subst; cbn [mcost lcost todo mpc_ loop idle in_flight]. lia.
-      * inversion H; subst; cbn [mcost lcost todo mpc_ loop idle in_flight]. destruct (is_pooled k); lia.
+      * destruct id as [|i], (is_pooled k); cbn [Nat.max] in H; inversion H; subst; cbn [mcost lcost todo mpc_ loop idle in_flight]; lia.
       * inversion H; subst; cbn [mcost lcost todo mpc_ loop idle in_flight]. lia.
       * destruct k; [|destruct fl]; inversion H; subst; cbn [mcost lcost todo mpc_ loop idle in_flight]; lia.
     + destruct isd; [|discriminate H]. inversion H; subst; cbn [mcost lcost todo mpc_ loop idle in_flight]. lia.
